@@ -2,7 +2,10 @@
 """Regenerate MANIFEST.json from checks.json (claimed properties) and properties.jsonl."""
 import json, os, subprocess
 ROOT = os.path.dirname(os.path.abspath(__file__))
-checks = json.load(open(os.path.join(ROOT, "checks.json")))
+checks = {}
+for _f in sorted(os.listdir(os.path.join(ROOT, "checks"))):
+    if _f.endswith(".json"):
+        checks[_f[:-5]] = json.load(open(os.path.join(ROOT, "checks", _f)))
 props = [json.loads(l) for l in open(os.path.join(ROOT, "properties.jsonl"))]
 na_reasons = json.load(open(os.path.join(ROOT, "not_applicable.json"))) if os.path.exists(os.path.join(ROOT, "not_applicable.json")) else {}
 hook_commits = subprocess.run("git -C /repo log --format=%H --grep='^verif hooks'", shell=True, stdout=subprocess.PIPE).stdout.decode().split()
